@@ -991,8 +991,10 @@ theorem addSrc_view (s : St) (m : ModId) (x : Src) :
     · exact ⟨rfl, rfl, rfl⟩
   · split
     · exact ⟨rfl, rfl, rfl⟩
-    · simp only
-      exact ⟨updMod_sigs _ m _ (fun _ => rfl), by simp, by simp⟩
+    · split
+      · split <;> exact ⟨rfl, rfl, rfl⟩
+      · simp only
+        exact ⟨updMod_sigs _ m _ (fun _ => rfl), by simp, by simp⟩
 
 theorem apiBatchTimeout_triple {R : St → Prop} (hR : Stable R) (m : ModId) (ns : Nat) : Triple R (apiBatchTimeout m ns) (fun _ => R) := by
   unfold apiBatchTimeout
@@ -1173,12 +1175,19 @@ theorem apiRegSrc_triple {R : St → Prop} (hR : Stable R) (m : ModId) (ok : Boo
     · intro _; exact Triple.retR _ (fun _ h => h.1)
     · intro _
       refine Triple.bind Triple.get fun s => ?_
-      have hv := addSrc_view s m x
+      have hv := addSrc_view s m (dupSrc x)
       refine Triple.bind (Q := fun _ => R) ?_ fun _ => Triple.retR _ (fun _ h => h)
       refine Triple.set _ fun st hI hp => ?_
       obtain ⟨he, hr, _⟩ := hp
       subst he
       exact ⟨Inv.congr hv.1 hv.2.1 hv.2.2 hI, fun _ hM => Mono.congr_right hv.1 hM, hR.view _ _ hv.1 hr⟩
+
+theorem burstP_triple {R : St → Prop} (hR : Stable R) (m r : ModId) (af : Bool) :
+    ∀ (n p : Nat) (acc : Int), Triple R (burstP m r af n p acc) (fun _ => R)
+  | 0, _, _ => Triple.retR _ (fun _ h => h)
+  | n + 1, p, acc => by
+    unfold burstP
+    exact Triple.bind (Q := fun _ => R) (apiTell_triple hR m r p af) fun c => burstP_triple hR m r af n (p + 1) _
 
 theorem apiDeregSrc_triple {R : St → Prop} (hR : Stable R) (m : ModId) (ok : Bool) (k : SrcKind) (key : Nat) :
     Triple R (apiDeregSrc m ok k key) (fun _ => R) := by
@@ -1377,7 +1386,20 @@ theorem apiProg_triple (c : Cfg) (op : Op) : Triple (fun _ => True) (apiProg c o
       exact ⟨Inv.congr (s := s) rfl rfl rfl hI, fun _ hM => Mono.congr_right (s := s) rfl hM, trivial⟩
     · simp only [h0]
       exact ⟨hI, fun _ hM => hM, trivial⟩
-  | dereg m => exact modDeregisterP_triple hR m
+  | dereg m =>
+    simp only [apiProg]
+    refine Triple.bind (Q := fun _ _ => True) (modDeregisterP_triple hR m) fun r => ?_
+    refine Triple.bind (Q := fun _ _ => True) ?_ fun _ => Triple.retR _ (fun _ h => h)
+    refine Triple.mod _ fun s hI _ => ?_
+    by_cases h0 : (r == 0) = true
+    · simp only [h0, if_true]
+      exact ⟨Inv.congr (s := s) rfl rfl rfl hI, fun _ hM => Mono.congr_right (s := s) rfl hM, trivial⟩
+    · simp only [h0]
+      exact ⟨hI, fun _ hM => hM, trivial⟩
+  | unref m =>
+    simp only [apiProg]
+    refine Triple.bind (Q := fun _ _ => True) ?_ fun _ => Triple.retR _ (fun _ h => h)
+    exact Triple.mod _ fun s hI _ => ⟨Inv.congr (s := s) rfl rfl rfl hI, fun _ hM => Mono.congr_right (s := s) rfl hM, trivial⟩
   | start m => exact apiStart_triple hR m
   | pause m => exact apiPause_triple hR m
   | resume m => exact apiResume_triple hR m
@@ -1392,6 +1414,7 @@ theorem apiProg_triple (c : Cfg) (op : Op) : Triple (fun _ => True) (apiProg c o
   | tell m r p af => exact apiTell_triple hR m r p af
   | publish m t p af => exact apiPublish_triple hR m t p af
   | pill m r => exact apiPill_triple hR m r
+  | burst m r p af n => exact burstP_triple hR m r af n p 0
   | subscribe m t sl p pb os u => exact apiSubscribe_triple hR m t sl p pb os u
   | unsubscribe m t => exact apiUnsubscribe_triple hR m t
   | regSrc m ok x pb => exact apiRegSrc_triple hR m ok x pb
